@@ -109,15 +109,18 @@ def plan(ctx, geos):
         cont = [(K("w-half", g["nw"] // 2, GATE_DELAY), K("w-enter", 0, GATE_DELAY)), (K("persisted", 0), K("bit", 0)),
                 (K("bit", 0), K("persisted", 0)), (K("w-exit", 0, GATE_DELAY), K("complete", 0, 0))]
         if not quick:
+            early = [p for p in pts if p[0]["kind"] in ("w-enter", "w-half", "w-exit", "bit", "persisted", "stop", "open-exit", "verify")
+                     and not (p[0]["kind"] in ("bit", "persisted") and p[0]["n"] >= np_ - 1)
+                     and not (p[0]["kind"].startswith("w-") and p[0]["n"] >= g["nw"] - 1)]       # something is left to download
             for _ in range(8):
-                a, b = rng.choice(pts), rng.choice([p for p in pts if not p[0]["kind"].startswith("open")])
-                cont.append((a[0], b[0]))
+                a, b = rng.choice(early), rng.choice([p for p in pts if not p[0]["kind"].startswith("open")])
+                cont.append((a[0], dict(b[0], n=0)))
         for a, b in cont:
             if np_ < 2:
                 continue
             add(lay, unit, [life("leech", a, rwi=RWI), life("leech", b, rwi=RWI), settle()], "continue")
     # D: default storage provider, kills at jittered times while the periodic writer commits every 2 ms
-    njit = ctx.pick(10, 250)
+    njit = ctx.pick(10, 200)
     for i in range(njit):
         lay = rng.choice(layouts)
         unit = 16384 if quick else rng.choice([16384, 5000])
@@ -183,6 +186,12 @@ def run(ctx):
                         "observable obligation for durability of a returned write (C05.osync)",
                         "the wrapping storage provider delegates to the real internal/storage/filestorage and splits every WriteAt into two halves",
                         "bbolt commit atomicity under SIGKILL is sampled by time-jittered kills with ResumeWriteInterval = 2 ms, not enumerated"]
+    if getattr(ctx, "replay", None):
+        # ./check C05 --replay replays/C05-...json : the recorded crash history is run again and judged
+        sc = json.load(open(ctx.replay))["detail"]["scenario"]
+        sc["id"] = 1
+        code_level(ctx, [sc])()
+        return
     # ---- design level (runs beside the build and the driver)
     box = {}
 
@@ -217,14 +226,15 @@ def run(ctx):
     judge()
 
 
-def code_level(ctx):
+def code_level(ctx, scs=None):
     drv = ctx.build_go("c05")
-    geos = {}
-    for lay in ["multi", "single", "empties", "padmid", "padalign", "odd"]:
-        for unit in (16384, 5000):
-            r = ctx.run_drv(drv, ["probe", "-layout", lay, "-unit", str(unit)], timeout=60)
-            geos[(lay, unit)] = json.loads(r.stdout.strip().splitlines()[-1])
-    scs = plan(ctx, geos)
+    if scs is None:
+        geos = {}
+        for lay in ["multi", "single", "empties", "padmid", "padalign", "odd"]:
+            for unit in (16384, 5000):
+                r = ctx.run_drv(drv, ["probe", "-layout", lay, "-unit", str(unit)], timeout=60)
+                geos[(lay, unit)] = json.loads(r.stdout.strip().splitlines()[-1])
+        scs = plan(ctx, geos)
     by_id = {s["id"]: s for s in scs}
     pp = ctx.path("plan.ndjson")
     vlib.write_ndjson(pp, scs)
@@ -262,6 +272,12 @@ def code_level(ctx):
         ctx.oblig("C05.osync(open)", sum(1 for e in es if e["ev"] in ("open", "osync")))
     ctx.extra["process_lives"] = lives
     ctx.extra["kills_at_storage_gates"] = kills_gate
+    fb = {}
+    for _, _, es in index:
+        for e in es:
+            if e["ev"] == "crash" and e["point"].startswith("idle:"):
+                fb[e["point"]] = fb.get(e["point"], 0) + 1
+    ctx.extra["kill_point_not_reached_fallbacks"] = fb      # leeching lives whose trigger could not occur (e.g. nothing left to download)
     ctx.extra["kill_points_seen"] = sorted({e["point"] for _, _, es in index for e in es if e["ev"] == "crash"})
     if index:
         ctx.sample({"scenario": {k: v for k, v in by_id[index[0][0]].items()}, "abstract_trace": index[0][2][:20]})
